@@ -112,7 +112,11 @@ def _run_real(case):
             finally:
                 for th in handlers:
                     th.close()
+            md_pre = None if merged is None else kgen.describe(merged)
+            if merged is not None:
+                mc.scribble(merged)              # the result is the caller's: wiping it must not reach the inputs
             before, after = inputs, [kgen.describe(o) for o in objs]
+            return {'error': err, 'inputs': inputs, 'before': before, 'after': after, 'merged': md_pre}
         return {'error': err, 'inputs': inputs, 'before': before, 'after': after,
                 'merged': None if merged is None else kgen.describe(merged)}
     finally:
